@@ -25,16 +25,24 @@ def heads(fragment: str) -> list[str]:
 
 
 def all_args_joined(f, rule_ctx, ctx: Ctx, rule: str, head: str):
-    """`Head(<every argument, comma separated>)`"""
-    rets = [n for n in ast.walk(f.node) if isinstance(n, ast.Return)]
-    ok = False
-    if rets:
-        sk = fstring_skeleton(rets[-1].value)
-        joins = [c for c in ast.walk(rets[-1]) if isinstance(c, ast.Call) and isinstance(c.func, ast.Attribute) and c.func.attr == "join" and const_str(c.func.value) == ", "]
-        if joins and joins[0].args and isinstance(joins[0].args[0], (ast.GeneratorExp, ast.ListComp)):
-            g = joins[0].args[0]
-            ok = sk is not None and sk.startswith(head + "(") and sk.endswith(")") and norm(g.generators[0].iter) == f"{f.params[-1]}.args" and not g.generators[0].ifs and norm(g.elt) == f"self._print({g.generators[0].target.id})"
-    ctx.check(ok, rule, f.key("all-arguments"), f"{head}(<all arguments>)", f"{f.qualname} does not print `{head}(` + every argument of the connective + `)`: operands are lost or the head is wrong when the file is saved", f.where())
+    """`Head(<every argument, comma separated>)`, judged on the text the method returns"""
+    from sa import av
+
+    from . import util
+
+    v = util.value_of(ctx, f)
+    if av.has_unk(v) or not av._is_str(v):
+        ctx.undecided(rule, f.key("all-arguments"), f"what {f.qualname} returns is not understood", f.where())
+        return
+    flat = av.flatten(v).replace(av.HO, "{").replace(av.HC, "}")
+    ep = f.params[-1]
+    want = head + "({join(', ', <self._print($1) for $1 in " + ep + ".args>)})"
+    want2 = head + "(⟦for $1 in " + ep + ".args: {self._print($1)}⟧)"
+    ok = flat in (want, want2) or re.fullmatch(re.escape(head) + r"\(⟦for \$1 in " + re.escape(ep) + r"\.args: \{self\._print\(\$1\)\}⟧\)", flat.replace("}, {", "}, {")) is not None
+    if not ok:
+        # the join renders as a loop group with the separator between the items
+        ok = re.sub(r"\s+", " ", flat) == f"{head}(⟦for $1 in {ep}.args: " + "{self._print($1)}⟧)"
+    ctx.check(ok, rule, f.key("all-arguments"), f"{head}(<all arguments>)", f"{f.qualname} returns `{flat[:120]}`, not `{head}(` + every printed argument of the connective, comma separated + `)`: operands are lost or the head is wrong when the file is saved", f.where())
 
 
 def run(ctx: Ctx):
@@ -69,18 +77,44 @@ def run(ctx: Ctx):
     # operator table
     rel = M.method("ode", "_print_Relational")
     ctx.require(rel, "BaseGotranODECodePrinter._print_Relational not found")
-    tables = [n for n in ast.walk(rel.node) if isinstance(n, ast.Dict)]
-    ctx.require(tables, "_print_Relational: operator table not found")
-    tab = {const_str(k): const_str(v) for k, v in zip(tables[0].keys, tables[0].values)}
-    for op, head in RELOPS.items():
-        ctx.check(tab.get(op) == head, "R11.a", rel.key(f"relop::{op}"), f"`{op}` -> {head}", f"_print_Relational writes `{op}` as {tab.get(op)!r}, which the loader reads as another relation than {head}", rel.where())
-    extra = {k: v for k, v in tab.items() if k not in RELOPS}
-    ne_ok = any("Not(Eq(" in fr for fr in pm.fragments(rel)) or extra.get("!=") in logical
-    ctx.check(ne_ok and all(v in logical for v in extra.values()), "R11.a", rel.key("relop::!="), "`!=` -> Not(Eq(..))", f"_print_Relational: `!=` is not written as Not(Eq(...)) (extra table entries: {extra})", rel.where())
-    rets = [fstring_skeleton(n.value) for n in ast.walk(rel.node) if isinstance(n, ast.Return)]
-    ctx.check("{relop}({lhs}, {rhs})" in rets, "R11.a", rel.key("operands"), "Head(lhs, rhs)", f"_print_Relational does not print `Head(lhs, rhs)` (returns {rets})", rel.where())
-    lr = {norm(n.targets[0]): norm(n.value) for n in ast.walk(rel.node) if isinstance(n, ast.Assign)}
-    ctx.check(lr.get("lhs") == "self._print(expr.lhs)" and lr.get("rhs") == "self._print(expr.rhs)", "R11.a", rel.key("sides"), "lhs/rhs not swapped", f"_print_Relational: lhs/rhs are bound as {lr}", rel.where())
+    from sa import av as _av11
+
+    from . import util as _u11
+    from .c03 import _branches as _br11
+
+    rv = _u11.value_of(ctx, rel)
+    if _av11.has_unk(rv):
+        ctx.undecided("R11.a", rel.key("relop"), "what _print_Relational returns is not understood", rel.where())
+    else:
+        ep = rel.params[-1]
+        L, R = "{self._print(" + ep + ".lhs)}", "{self._print(" + ep + ".rhs)}"
+        tab, ne_text, generic = {}, None, None
+        for conds, leaf in _br11(rv):
+            if not _av11._is_str(leaf):
+                continue
+            flat = _av11.flatten(leaf).replace(_av11.HO, "{").replace(_av11.HC, "}")
+            eqs = [c for c in conds if c[0] == "cmp" and c[1] == "==" and c[2] == ("sym", f"{ep}.rel_op") and c[3][0] == "c"]
+            dicts = [x for x in _av11.find_all(leaf, "sub") if x[1][0] == "dict" and x[2] == ("sym", f"{ep}.rel_op")]
+            if eqs:
+                op = eqs[0][3][1]
+                if op == "!=":
+                    ne_text = flat
+                else:
+                    m = re.fullmatch(r"(\w+)\(" + re.escape(L) + ", " + re.escape(R) + r"\)", flat)
+                    tab[op] = m.group(1) if m else flat
+            elif dicts:
+                generic = flat
+                for k, x in dicts[0][1][1]:
+                    if k[0] == "c" and x[0] == "c":
+                        tab.setdefault(k[1], x[1])
+        for op, head in RELOPS.items():
+            ctx.check(tab.get(op) == head, "R11.a", rel.key(f"relop::{op}"), f"`{op}` -> {head}", f"_print_Relational writes `{op}` as {tab.get(op)!r}, which the loader reads as another relation than {head}", rel.where())
+        extra = {k: v for k, v in tab.items() if k not in RELOPS}
+        ne_ok = (ne_text == "Not(Eq(" + L + ", " + R + "))") or extra.get("!=") in logical
+        ctx.check(ne_ok and all(v in logical for v in extra.values()), "R11.a", rel.key("relop::!="), "`!=` -> Not(Eq(..))", f"_print_Relational: `!=` is written as {ne_text!r} (extra table entries: {extra}), not Not(Eq(lhs, rhs))", rel.where())
+        if generic is not None:
+            okg = re.fullmatch(r"\{.*\}\(" + re.escape(L) + ", " + re.escape(R) + r"\)", generic) is not None
+            ctx.check(okg, "R11.a", rel.key("operands"), "Head(lhs, rhs)", f"_print_Relational does not print `Head(printed lhs, printed rhs)` (returns {generic[:100]})", rel.where())
     for cname in ("And", "Or"):
         f = M.method("ode", f"_print_{cname}")
         ctx.require(f, f"writer _print_{cname} not found")
@@ -94,7 +128,11 @@ def run(ctx: Ctx):
     okpw = "Conditional(" in frs and any(isinstance(n, ast.For) and norm(n.iter) == "zip(conds, exprs)" for n in ast.walk(pw.node)) and any(isinstance(n, ast.If) and norm(n.test).replace('"', "'") == "c == '1'" for n in ast.walk(pw.node))
     closes = [n for n in ast.walk(pw.node) if isinstance(n, ast.BinOp) and isinstance(n.op, ast.Mult) and const_str(n.left) == ")"]
     okpw = okpw and bool(closes) and norm(closes[0].right) == "len(conds) - 1"
-    ctx.check(okpw, "R11.a", pw.key("nesting"), "nested Conditional(c, e, Conditional(...)) closed once per pair", "writer _print_Piecewise: pairs are not written as nested Conditional(c, e, ...) with the default as last argument", pw.where())
+    anchor = any(isinstance(n, ast.For) and norm(n.iter) == "zip(conds, exprs)" for n in ast.walk(pw.node))
+    if not anchor and any("Conditional(" in fr for fr in frs):
+        ctx.undecided("R11.a", pw.key("nesting"), "the nested Conditional(...) text is not built by the known loop over zip(conds, exprs); pairing and closing parentheses are not judged", pw.where())
+    else:
+        ctx.check(okpw, "R11.a", pw.key("nesting"), "nested Conditional(c, e, Conditional(...)) closed once per pair", "writer _print_Piecewise: pairs are not written as nested Conditional(c, e, ...) with the default as last argument", pw.where())
     printers.check_not_normalised(ctx, "R11.a")
 
     # reader side: generic function application uses every argument
@@ -108,11 +146,20 @@ def run(ctx: Ctx):
 
     ctx.rule("R11.b", "coverage: the writer emits comments, states, parameters and all assignments; each helper writes name, value/expression, unit, description and component names unmodified", floor=12)
     w = sm.func("save.py", "write_ODE_to_ode_file")
-    calls = [norm(c.func).split(".")[-1] for c in ast.walk(w.node) if isinstance(c, ast.Call) and norm(c.func).startswith("printer.print_")]
-    order = [n for n in ("print_comments", "print_states", "print_parameters", "print_assignments") if n in calls]
-    ctx.check(order == ["print_comments", "print_states", "print_parameters", "print_assignments"] and sorted(calls) == sorted(order), "R11.b", w.key("sections"), "comments, states, parameters, assignments", f"write_ODE_to_ode_file emits {calls}", w.where())
-    wt = [c for c in find_calls(w.node, "write_text")]
-    ctx.check(bool(wt) and norm(wt[0].args[0]).replace("'", '"') == '"".join(text)', "R11.b", w.key("write"), "all sections are written", "write_ODE_to_ode_file does not write the joined sections", w.where())
+    A11 = _u11.AV(ctx)
+    A11.returned(w)
+    wts = [val for fn_, node_, val in A11.call_log if val[0] == "mcall" and val[2] == "write_text" and val[3]]
+    if not wts or _av11.has_unk(wts[-1][3][0]):
+        ctx.undecided("R11.b", w.key("sections"), "what write_ODE_to_ode_file writes is not understood", w.where())
+    else:
+        text = wts[-1][3][0]
+        secs = [c[2] for c in _av11.find_all(text, "mcall") if c[2].startswith("print_") and c[1][0] == "call" and c[1][1].split(".")[-1] == "GotranODECodePrinter"]
+        order = [n for n in secs if n in ("print_comments", "print_states", "print_parameters", "print_assignments")]
+        ctx.check(order == ["print_comments", "print_states", "print_parameters", "print_assignments"] and len(secs) == 4, "R11.b", w.key("sections"), "comments, states, parameters, assignments", f"write_ODE_to_ode_file emits {secs}", w.where())
+        flat = _av11.flatten(text) if _av11._is_str(text) else ""
+        holes = re.findall(_av11.HO + r"(.*?)" + _av11.HC, flat, flags=re.S)
+        plain = re.sub(_av11.HO + r".*?" + _av11.HC, "", flat, flags=re.S)
+        ctx.check(_av11._is_str(text) and plain == "" and len(holes) == 4, "R11.b", w.key("write"), "all sections are written, nothing else", f"write_ODE_to_ode_file writes {_av11.show(text)[:120]}: not exactly the four sections joined", w.where())
     cls = sm.cls("codegen/ode.py", "GotranODECodePrinter")
     for mname, seq, helper in (("print_states", "self.ode.states", "print_ScalarParam"), ("print_parameters", "self.ode.parameters", "print_ScalarParam"), ("print_assignments", "self.ode.intermediates + self.ode.state_derivatives", "print_assignment")):
         f = cls.methods[mname]
